@@ -252,6 +252,14 @@ func (in *Interp) runPath(h *ssa.Function, res *harnessResult) {
 						reason = reason[:k]
 					}
 					res.Aborts[reason]++
+				case fatalStack:
+					end = "fatal-stack-overflow"
+					m := in.check(nil, true)
+					if m.Res == "unknown" {
+						res.inconclusive("solver unknown on stack overflow")
+					} else {
+						res.addViolation(in.harness, "panic-escaped", in.witness("panic-escaped", m.Model), in.knownFor("panic-escaped"))
+					}
 				case *GoPanic:
 					// a panic escaped the harness body
 					end = "panic-escaped"
@@ -271,6 +279,19 @@ func (in *Interp) runPath(h *ssa.Function, res *harnessResult) {
 			}
 		}()
 		in.callFn(nil, h, nil, nil)
+		if in.castRaised > in.castSeen {
+			// a mis-typed variant access happened and the code under test
+			// recovered from the engine's panic itself (natively there is no
+			// panic: the access silently reads another variant's memory), so
+			// no sv.Outcome reported it to the harness
+			m := in.check(nil, true)
+			if m.Res == "unknown" {
+				res.inconclusive("solver unknown on swallowed mis-typed access")
+			} else {
+				id := "no-mis-typed-variant-access-(swallowed-by-the-code's-own-recover)"
+				res.addViolation(in.harness, id, in.witness(id, m.Model), in.knownFor(id))
+			}
+		}
 	}()
 	if os.Getenv("SYMGO_TRACE") != "" {
 		var ks []string
